@@ -277,6 +277,10 @@ func (r *Run) Inconclusive(format string, a ...interface{}) {
 func (r *Run) Violation(class, what string, replay interface{}) {
 	r.mu.Lock()
 	defer r.mu.Unlock()
+	if sfx := os.Getenv("VERIF_CLASS_SUFFIX"); sfx != "" && r.child { // e.g. "@386" for a worker built for another GOARCH
+		class += sfx
+		what = "[" + strings.TrimPrefix(sfx, "@") + "] " + what
+	}
 	if r.child {
 		r.violations++
 		r.vioClasses[class]++
